@@ -177,6 +177,8 @@ class HGen:
         if self.edges and self.rng.random() > missing_p:
             return self.rng.choice(self.edges), False
         cand = [e for e in self.epool if not has(self.edges, e)] or ["nope"]
+        if self.rng.random() < 0.15 and self.cls_name != "DiHypergraph":  # (the directed bulk formats read a tuple ID as members)
+            cand = [c for c in [(7, 8), ("a", 1), (3,)] if not has(self.edges, c)] or cand  # tuple IDs (merge rename="tuple" makes such)
         return self.rng.choice(cand), True
 
     def new_members(self, lo=1, hi=4):
@@ -193,6 +195,9 @@ class HGen:
         idx = rng.choice(self.epool)
         if self.hostile and r > 0.9:
             idx = rng.choice([0, True, 2.0, -1, 7])
+        elif self.hostile and r > 0.87 and self.cls_name != "DiHypergraph":
+            # hashable but neither number, string nor tuple (the directed bulk formats read an iterable ID as members)
+            idx = rng.choice([frozenset({91}), frozenset({91, 92}), b"x"])
         if has(self.edges, idx):
             tags.add("dup-id")
         if isinstance(idx, (int, float)) and idx == 0:
@@ -251,6 +256,9 @@ class HGen:
                 tags.add("empty-members")
             elif r < 0.13:
                 ms = ms + [ms[0]]  # repeated member
+            elif r < 0.15 and getattr(self, "nan_ok", False):
+                ms = ms + [float("nan")]  # a legal (if odd) hashable label
+                tags.add("nan-member")
         return ms
 
     def g_add_edge(self):
@@ -642,9 +650,9 @@ class SCGen(HGen):
         "remove_simplex_id", "remove_simplex_ids_from", "remove_node", "remove_nodes_from",
         "close", "cleanup", "alias_add_edge", "alias_add_edges_from", "alias_add_weighted_edges_from",
         "alias_remove_edge", "alias_remove_edges_from", "clear", "relabel", "lcc",
-        "set_node_attributes", "set_edge_attributes", "set_net_attr",
+        "set_node_attributes", "set_edge_attributes", "set_net_attr", "clear_edges",
     )
-    WEIGHTS = (2, 2, 9, 10, 2, 6, 4, 4, 2, 1, 1.2, 2, 2, 1, 2, 1.5, 0.4, 1, 1, 1.5, 1.5, 1)
+    WEIGHTS = (2, 2, 9, 10, 2, 6, 4, 4, 2, 1, 1.2, 2, 2, 1, 2, 1.5, 0.4, 1, 1, 1.5, 1.5, 1, 0.8)
 
     def _members_arg(self, tags, hi=5):
         rng = self.rng
